@@ -90,6 +90,13 @@ CHECKS.update({
    technique="frame-condition checking by bounded symbolic execution of the real C from LLVM IR (LLSYM) + z3"),
 })
 
+CHECKS.update({
+ 'C18': dict(engine="PYSYM", category="other",
+   text="Symbolic execution of the real samplers (Integer.random / random_range over IntegerNative, StrongRandom.getrandbits/randrange/randint/shuffle, ECC.generate) with the entropy tape as solver variables: on every completed path z3 decides the definition of an unbiased rejection sampler -- candidate = tape & (2^bits-1) (a bijection on the masked tape), the mask covers the whole range, a draw is rejected exactly when the candidate is out of range, result = min + candidate (start + step*candidate) -- which implies in-range, exactly uniform for a uniform tape, and deterministic in the tape; EC private scalars lie in [1, order-1] and EdDSA/X25519 seeds are exactly the tape draw.",
+   note="Range sizes of every bit length 1..64 with symbolic bounds (quick: 12 sizes), plus 256 (thorough 255/521) bits; at most 2 rejections per call (longer rejection runs are cut); steps 1 and 3.  RSA/DSA generation, blinding factors, DSS nonces and the OS entropy source are outside; the default RNG is a stub that aborts (or a fixed stream for curve set-up).",
+   technique="bounded symbolic execution of the real Python (PYSYM) with a symbolic entropy tape + z3"),
+})
+
 ENGINES = [
     dict(name="PYSYM", path="vlib/pysym", kind_free_text="bounded symbolic execution of the real Python source (AST-rewritten import, symbolic bytes/int proxies, fork by re-execution under a decision prefix) decided by z3"),
     dict(name="LLSYM", path="vlib/llsym", kind_free_text="symbolic interpreter of clang-14 LLVM IR (-O0 + mem2reg) of /repo/src/*.c into z3 terms, bounds-checked memory model, local path exploration with ite-merge at function returns; replay on the gcc-built C through ctypes"),
